@@ -31,7 +31,7 @@ func init() {
 		Level: "exploration",
 		Cases: func(tier string) int { return tierN(tier, 4000, 80000) },
 		Run:   runC11,
-		Rule: "case = (multihash configuration with file limits 50-1000 bytes, key universe, fill history that spreads records over several files, then a kill phase that removes/overwrites all keys of chosen non-current files, or all but a few (low-use scenario), followed by Flush and harness-driven GC cycles with a Flush after each; some cases start with cycles stopped midway by a synthetic deadline; in a quarter of the cases EVERY primary cycle is time-limited with a budget that expires while its first unvisited file is scanned, and the bounds grow by the number of non-current files). Oracle on directory listings, sizes, StorageSize and fsck's decoded layout: (a) every non-current primary file without live records is zero-length or unlinked within 4 primary cycles, and unlinked if it was the oldest file when visited; (b) every non-current index file no bucket refers into is zero-length or unlinked within 4 index cycles; (c) a primary file whose free share is >= threshold+10% is, within live+4 cycles, drained and released or shortened by truncation of its free tail until its free share is below that again; (d) a cycle that relocated nothing does not grow StorageSize, otherwise growth is bounded by the relocated records, their rewritten record lists and 24 bytes of freelist per record; (e) after the bounds one more primary+index cycle and Flush changes no file. Bulk variant (index mod 32 == 3): 450-700 (or 1100-1400) overwrites without a GC cycle in between, so one hand-over carries several hundred entries. Pinned variant (index mod 8 == 6): a complete cycle visits every file before the kill phase and the first cycle after it is stopped by its budget while its freelist batch is being applied. Background family (index mod 16 == 15): the store's own collector goroutines (1 ms interval, with or without a cycle time limit that never expires) are stepped one cycle at a time by gates at their cycle-start points, with a Flush while both are parked; clauses (a)-(c) with the same bounds and the default 85% threshold. " +
+		Rule: "case = (multihash configuration with file limits 50-1000 bytes, key universe, fill history that spreads records over several files, then a kill phase that removes/overwrites all keys of chosen non-current files, or all but a few (low-use scenario), followed by Flush and harness-driven GC cycles with a Flush after each; some cases start with cycles stopped midway by a synthetic deadline; in a quarter of the cases EVERY primary cycle is time-limited with a budget that expires while its first unvisited file is scanned, and the bounds grow by the number of non-current files). Oracle on directory listings, sizes, StorageSize and fsck's decoded layout: (a) every non-current primary file without live records is zero-length or unlinked within 4 primary cycles, and unlinked if it was the oldest file when visited; (b) every non-current index file no bucket refers into is zero-length or unlinked within 4 index cycles; (c) a primary file whose free share is >= threshold+10% is, within live+4 cycles, drained and released or shortened by truncation of its free tail until its free share is below that again; (d) a cycle that relocated nothing does not grow StorageSize, otherwise growth is bounded by the relocated records, their rewritten record lists and 24 bytes of freelist per record; (e) after the bounds one more primary+index cycle and Flush changes no file. Bulk variant (index mod 32 == 3): 450-700 (or 1100-1400) overwrites without a GC cycle in between, so one hand-over carries several hundred entries. Left-over variant (index mod 16 == 9): the temporary header files a crash between write and rename leaves (`*.info.tmp`) exist before the progress cycles. Pinned variant (index mod 8 == 6): a complete cycle visits every file before the kill phase and the first cycle after it is stopped by its budget while its freelist batch is being applied. Background family (index mod 16 == 15): the store's own collector goroutines (1 ms interval, with or without a cycle time limit that never expires) are stepped one cycle at a time by gates at their cycle-start points, with a Flush while both are parked; clauses (a)-(c) with the same bounds and the default 85% threshold. " +
 			"non-trivial iff at least one dead or low-use file existed and was released; distinct = hash of (configuration, digests, operations, scenario)",
 		Assumptions: []string{
 			"progress is measured in harness-driven cycles with a Flush between cycles (the statement's 'change flushed')",
@@ -325,6 +325,16 @@ func runC11(c run.Ctx) *core.CaseResult {
 			}
 		}
 		fmt.Fprintf(os.Stderr, "trace tail: %v\nlast ops: %v\n", names[max(0, len(names)-80):], trace[max(0, len(trace)-12):])
+	}
+	if c.Index%16 == 9 {
+		// a process that died between writing a header's temporary file and renaming it leaves that file
+		// behind; an earlier incarnation of this store may have done so. Reclaiming must go on regardless.
+		for _, pth := range []string{env.DataPath + ".info", env.IndexPath + ".info"} {
+			if b, err := os.ReadFile(pth); err == nil {
+				os.WriteFile(pth+".tmp", b, 0o644)
+			}
+		}
+		res.Add("cases_with_left_over_header_temp_files", 1)
 	}
 	// visit log: (file, header FirstFile at visit)
 	type visit struct{ file, first uint32 }
